@@ -812,7 +812,23 @@ def _sqw_calls():
                 for di, dt in enumerate(('float64', 'float32'))]
     exp_slot = [(f'{a}/{e}', ai * 2 + ei + 1, 1, lambda a=a, e=e: experiments(a, e))
                 for ai, a in enumerate(('rad', 'deg')) for ei, e in enumerate(('meV', 'eV'))]
-    return [CallSpec('io.sqw builder add_pixel_data + create', build, {'pix': pix_slot, 'exps': exp_slot})]
+    def sample(unit):
+        return S.SqwIXSample(name='s', lattice_spacing=sc.vector([2.86, 2.86, 2.86], unit='angstrom').to(unit=unit),
+                             lattice_angle=sc.vector([90.0, 90.0, 90.0], unit='deg'))
+
+    def build_bo(pix, exps, samp, bo):
+        # every byte order: a writer that converts to the file's byte order must not do so in the caller's buffers
+        b = S.Sqw.build(io.BytesIO(), title='t', byteorder=bo)
+        b = b.add_default_sample(samp).add_pixel_data(pix, experiments=exps)
+        b.create(chunk_size=4)
+
+    samp_slot = [(u, i + 1, 1, lambda u=u: sample(u)) for i, u in enumerate(('angstrom', 'nm'))]
+    out = [CallSpec('io.sqw builder add_pixel_data + create', build, {'pix': pix_slot, 'exps': exp_slot})]
+    for bo in ('native', 'little', 'big'):
+        out.append(CallSpec(f'io.sqw builder (byteorder={bo}) add_default_sample + add_pixel_data + create',
+                            lambda pix, exps, samp, bo=bo: build_bo(pix, exps, samp, bo),
+                            {'pix': pix_slot[:3], 'exps': exp_slot[:2] + exp_slot[3:], 'samp': samp_slot}))
+    return out
 
 
 def combos(call: CallSpec, rng, cap: int):
